@@ -261,6 +261,51 @@ let lk_cmd (args : string list) : string =
   | ["get"; _; _] | ["pget"; _; _] | ["ls"] | ["clonedrop"; _] -> "skip"
   | _ -> "bad-command"
 
+(* ---------- RI: the range-cursor overlay (Txn/RangeIter.v) ---------- *)
+let ri_pairs (s : string) : (string * string) list =
+  (* hexkey=hexval,... sorted by key (two-digit lowercase hex: string order = byte order) *)
+  let l = List.map (fun tok -> match String.index_opt tok '=' with
+      | Some i -> (String.sub tok 0 i, String.sub tok (i + 1) (String.length tok - i - 1))
+      | None -> failwith "bad pair") (split_on ',' (if s = "-" then "" else s)) in
+  List.sort (fun (a, _) (b, _) -> compare a b) l
+let ri_ops (s : string) : cop list =
+  List.map (fun t -> match t with
+      | "first" -> CFirst | "last" -> CLast | "next" -> CNext | "prev" -> CPrev
+      | _ -> if String.length t > 5 && String.sub t 0 5 = "seek:" then CSeek (bytes_of_hex (String.sub t 5 (String.length t - 5)))
+        else failwith "bad cursor op") (split_on ',' (if s = "-" then "" else s))
+let ri_show = function
+  | None -> "invalid"
+  | Some (k, v) -> Printf.sprintf "valid %s=%s" (hex_of_bytes k) (hex_of_bytes v)
+let ri_data committed writeset lo hi =
+  let sn = List.map (fun (k, v) -> (bytes_of_hex k, bytes_of_hex v)) (ri_pairs committed) in
+  let ws = List.map (fun (k, v) -> (bytes_of_hex k, if v = "!" then None else Some (bytes_of_hex v))) (ri_pairs writeset) in
+  (restrict (bopt lo) (bopt hi) sn, restrict (bopt lo) (bopt hi) ws)
+let ri_cmd (args : string list) : string =
+  match args with
+  | ["run"; committed; writeset; lo; hi; prog] ->
+    let sn = List.map (fun (k, v) -> (bytes_of_hex k, bytes_of_hex v)) (ri_pairs committed) in
+    let ws = List.map (fun (k, v) -> (bytes_of_hex k, if v = "!" then None else Some (bytes_of_hex v))) (ri_pairs writeset) in
+    String.concat ";" (List.map ri_show (ri_run_bounded (bopt lo) (bopt hi) sn ws (ri_ops prog)))
+  | ["sweep"; committed; writeset; lo; hi; alphabet; depth] ->
+    let (sn, ws) = ri_data committed writeset lo hi in
+    let alphabet = ri_ops alphabet in
+    let h = ref 0L and count = ref 0 in
+    let rec walk st dead depth =
+      List.iter (fun op ->
+          let seek = (match op with CFirst | CLast | CSeek _ -> true | _ -> false) in
+          if dead && not seek then () else begin
+            let st' = ri_step sn ws st op in
+            let out = ri_get sn ws st' in
+            let hv = ref 0xcbf29ce484222325L in
+            String.iter (fun c -> hv := Int64.mul (Int64.logxor !hv (Int64.of_int (Char.code c))) 0x100000001b3L) (ri_show out);
+            h := Int64.add (Int64.mul !h 0x100000001b3L) !hv;
+            incr count;
+            if depth > 1 then walk st' (out = None) (depth - 1)
+          end) alphabet in
+    walk ri_init false (int_of_string depth);
+    Printf.sprintf "swept n=%d digest=%016Lx" !count !h
+  | _ -> "bad-command"
+
 let () =
   try
     while true do
@@ -272,6 +317,7 @@ let () =
             | "wal" :: rest -> wal_cmd rest
             | "e2" :: rest -> e2_cmd rest
             | "ck" :: rest -> ck_cmd rest
+            | "ri" :: rest -> ri_cmd rest
             | "lk" :: rest -> lk_cmd rest
             | _ -> "bad-command"
           with
